@@ -195,6 +195,23 @@ Section Guards.
   Definition g_id_narrowed (ptype : string) (narrowed : bool) (s : sel) : bool :=
     match s with Field alias name _ _ _ => narrowed && String.eqb (rkey alias name) "id" | _ => false end.
 
+  (* guard 9: a fragment whose type condition narrows the type it is spread on and which holds a
+     fragment of its own: what the inner fragment sends to another service is queued from inside
+     both, the join id is selected inside them too, and the objects of the other types of the
+     enclosing list come back without one *)
+  Definition is_frag (s : sel) : bool := match s with Field _ _ _ _ _ => false | _ => true end.
+  Definition g_nested_narrowing (ptype : string) (narrowed : bool) (s : sel) : bool :=
+    match s with
+    | Inline tcond _ sub =>
+        negb (String.eqb tcond "") && negb (String.eqb tcond ptype) && existsb is_frag sub
+    | Spread name _ =>
+        match frag_for name frags with
+        | Some f => negb (String.eqb (f_tcond f) ptype) && existsb is_frag (f_sel f)
+        | None => false
+        end
+    | Field _ _ _ _ _ => false
+    end.
+
   (* guard 5: a named fragment spread inside a fragment definition, or a fragment spread more than once *)
   Fixpoint spreads_in (fuel : nat) (s : sel) {struct fuel} : list string :=
     match fuel with
@@ -228,5 +245,6 @@ Section Guards.
     (if existsb (exists_sel fuel g_id_narrowed root false) sels then [4] else []) ++
     (if g_fragments fuel sels then [5] else []) ++
     (if g_repeated_composite fuel sels then [7] else []) ++
-    (if g_repeated_in_fragments fuel sels then [8] else []).
+    (if g_repeated_in_fragments fuel sels then [8] else []) ++
+    (if existsb (exists_sel fuel g_nested_narrowing root false) sels then [9] else []).
 End Guards.
